@@ -134,13 +134,13 @@ Definition loco_update (nr : Z) (pages : list (list Z)) : option (list (Z * Z) *
   | None => None
   end.
 
-(* LocoMemory2 id lists: 17 bytes = count, then up to 16 ids *)
-Inductive idlist_res := IL_Ok (ids : list Z) | IL_IndexError (ids_so_far : list Z) | IL_Len.
+(* LocoMemory2 id lists: 17 bytes = count, then up to 16 ids.  Never more ids than the bytes read can hold
+   (repair F06k in /repo: count = min(count byte, len(data) - 1); before, a count byte above 16 raised IndexError) *)
+Inductive idlist_res := IL_Ok (ids : list Z) | IL_Len.
 
 Definition loco2_ids (d : list Z) : idlist_res :=
   if negb (length d =? 17)%nat then IL_Len else
-  let n := Z.to_nat (nthz 0 d) in
-  if (n <=? 16)%nat then IL_Ok (firstn n (skipn 1 d)) else IL_IndexError (skipn 1 d).
+  IL_Ok (firstn (Nat.min (Z.to_nat (nthz 0 d)) 16) (skipn 1 d)).
 
 Fixpoint alist_get (k : Z) (l : list (Z * list Z)) : option (list Z) :=
   match l with
